@@ -98,6 +98,22 @@ def tables_rebased(prog, res):
     res.check({"ZSTD_ROWSIZE", "ZSTD_WINDOW_START_INDEX", "ZSTD_DUBT_UNSORTED_MARK"} <= ms, R, "reducer-structure", ri.loc,
               "row-wise loop, squash below reducerValue + ZSTD_WINDOW_START_INDEX, ZSTD_DUBT_UNSORTED_MARK preserved on demand",
               "reducer lost one of its structural parts: %s" % sorted({"ZSTD_ROWSIZE", "ZSTD_WINDOW_START_INDEX", "ZSTD_DUBT_UNSORTED_MARK"} - ms))
+    # the mark is a cell VALUE (1), not an index: on the edge where the cell holds it (and the caller asked for it to be kept) what is
+    # stored back is the mark itself - a constant - and never the result of the index arithmetic, whose squash test (< reducerValue + 2)
+    # would turn a lifted mark into 0 and make every unsorted candidate look like a sorted tree node
+    ismark = cond_edges(ri, lambda c: c.get("k") == "bin" and c["op"] == "==" and any("ZSTD_DUBT_UNSORTED_MARK" in (y.get("m") or []) for y in ri.walk_resolved(c)), "true")
+    def const_mark(n):
+        n = strip_casts(ri.resolve_x(n))
+        return n is not None and n.get("k") != "bin" and n.get("k") != "cond" and any("ZSTD_DUBT_UNSORTED_MARK" in (y.get("m") or []) for y in walk(n)) and const_val(n) is not None
+    keep = ri.find_roots(lambda x: x.get("k") == "asg" and x.get("op") == "=" and const_mark(x["rhs"]))
+    stores = [(b, i, x) for b, i, x in ri.events(lambda y: y.get("k") == "asg" and strip_casts(y["lhs"]).get("k") == "idx")]
+    kept_names = {strip_casts(x["lhs"]).get("n") for b, i in keep for x in walk(ri.blocks[b]["el"][i]) if x.get("k") == "asg" and strip_casts(x["lhs"]).get("k") == "ref"}
+    direct = any(const_mark(x["rhs"]) for b, i, x in stores)
+    via_local = any(strip_casts(ri.resolve_x(x["rhs"])) is not None and strip_casts(ri.resolve_x(x["rhs"])).get("k") == "ref" and strip_casts(ri.resolve_x(x["rhs"])).get("n") in kept_names for b, i, x in stores)
+    okm = bool(ismark) and bool(keep) and ri.must_pass(via_edges=ismark, targets=keep) and (direct or via_local)
+    res.check(okm, R, "reducer-keeps-the-mark-as-a-constant", ri.loc, "a cell holding the unsorted mark is stored back as the constant mark",
+              "ZSTD_reduceTable_internal no longer stores ZSTD_DUBT_UNSORTED_MARK back as a constant for a marked cell: a mark pushed through the index arithmetic is squashed "
+              "to 0 by `< reducerValue + ZSTD_WINDOW_START_INDEX`, unsorted btlazy2 candidates become tree nodes and frames compressed after an index rebase decode to other bytes")
     lt = cond_edges(ri, lambda c: c.get("k") == "bin" and c["op"] == "<" and "m:ZSTD_WINDOW_START_INDEX" in ri.anchors(c, depth=2), "true")
     res.check(bool(lt), R, "reducer-squash", ri.loc, "indices below the threshold are squashed to 0", "squash comparison changed")
     l = prog.fn("ZSTD_ldm_generateSequences")
